@@ -34,9 +34,10 @@ LEVEL_TEXT = (
 )
 LEVEL_NOTE = (
     "Trusted: Lean kernel + standard axioms; the harness's rendering of a chain as source text; the exit-status clause (xonsh -c / "
-    "script exit codes) is tied by sampled process runs, not proved. A !() whose value nobody demands (standalone statement, or "
-    "right-most operand while $XONSH_SUBPROC_RAISE_ERROR is False) ends lazily after the statement; such programs are generated "
-    "only without a raise decorator / CMD_RAISE on that command."
+    "script exit codes) is tied by sampled process runs, not proved. A !() is lazy (spec.background): the model ends it where its "
+    "truth value is asked for (a following and/or) and never inside the statement when it is the last operand or a standalone "
+    "statement (C05_cex_lazy_object, known finding; the refinement theorem assumes such a last operand is quiet). The harness "
+    "generates an undemanded !() only at the very end of a program, because its command runs concurrently with whatever follows."
 )
 
 IDS = "abcdefghijklmnopqrstuvwxyz"
@@ -67,10 +68,6 @@ class Gen:
             demanded = in_chain and not rightmost
             if not demanded and not last_stmt:
                 form = "hidden"
-            elif not demanded:
-                dec = "none" if dec == "raise" else dec
-                if fl[1] and dec == "none":
-                    rc = 0
         prints = form in ("stdout", "object") and r.random() < 0.5
         py = form == "hidden" and dec == "none" and r.random() < 0.25
         early, inject = [], []
@@ -190,7 +187,7 @@ def session():
     # a parenthesised group that the recovery loop wraps as a whole is run as a SUBSHELL (`python -m xonsh -c GROUP`,
     # parsers/base.py p_subproc_atoms_subshell): the child xonsh must be importable, and the in-process recorder cannot see
     # what runs inside it — note when it happens
-    env["PYTHONPATH"] = "/repo"
+    env["PYTHONPATH"] = str(common.REPO)
     import xonsh.procs.specs as xps
 
     orig_run = xps.run_subproc
@@ -323,6 +320,14 @@ def has_valued_operand(prog):
 
 K_VALUED = "captured-operand-value-steers-the-chain"
 K_DROP = "python-looking-operand-before-rparen-drops-the-subchain"
+K_LAZY = "lazy-object-never-ends-in-statement"
+
+
+def lazy_last_would_raise(prog, fl):
+    """the program's very last operand is a `!()` whose end would raise (@error_raise, or failing under CMD_RAISE)"""
+    c = list(leaves(prog[-1]))[-1]
+    rc, form, dec = c[2], str(c[3]), str(c[4])
+    return form == "object" and rc != 0 and (dec == "raise" or (fl[1] and dec != "ignore"))
 
 
 def judge(ctx, stream, prog, fl, src, real, obs):
@@ -357,6 +362,8 @@ def judge(ctx, stream, prog, fl, src, real, obs):
         key = None
         if dropped:
             key = K_DROP
+        elif faithful and lazy_last_would_raise(prog, fl):
+            key = K_LAZY
         elif faithful and has_valued_operand(prog):
             key = K_VALUED
         ctx.count("spec-divergence/" + (key or "NEW"))
@@ -490,7 +497,7 @@ def stream_exit_status(ctx, n, name_="exit-status"):
         logf = str(root / f"c05-exit-{k}.log")
         open(logf, "w").close()
         env = {"PATH": "/usr/bin:/bin", "HOME": str(root), "XV_LOG": logf, "XONSH_SUBPROC_RAISE_ERROR": "1" if fl[0] else "0",
-               "XONSH_SUBPROC_CMD_RAISE_ERROR": "1" if fl[1] else "0", "PYTHONPATH": "/repo", "XONSH_DATA_DIR": str(root), "XONSH_CACHE_DIR": str(root),
+               "XONSH_SUBPROC_CMD_RAISE_ERROR": "1" if fl[1] else "0", "PYTHONPATH": str(common.REPO), "XONSH_DATA_DIR": str(root), "XONSH_CACHE_DIR": str(root),
                "XONSH_HISTORY_BACKEND": "dummy", "TERM": "dumb"}
         as_script = ctx.rng.random() < 0.5
         if as_script:
@@ -538,7 +545,7 @@ def replay_known(ctx):
 def run(ctx):
     ctx.assumptions += [
         "commands are callable aliases `t <id> <rc> <p|n>` (log, optional output, exit code) or real `sh -c` children; a pipeline's stages are ordered by making each stage read its stdin to EOF before logging",
-        "a !() whose value nobody demands inside the statement carries no raise decorator (its end, and so its raise, would fall outside the statement)",
+        "an undemanded !() (last operand / standalone) is generated only at the very end of the program: its command runs concurrently with whatever follows",
     ]
     ctx.explanation = (
         "Spec and Impl in lean/XonshVerif/Model/Chain.lean; refinement and counterexamples in Props/C05.lean; tie = generated programs "
